@@ -421,6 +421,13 @@ func (w *world) txInputs() []c08In {
 	out = append(out, mkIn(0, "tx", "0", 1_000_000, hex.EncodeToString(bz), "tx/sendToEvm-nul"))
 	bz, _ = ft.Pack("getErc20Address", "tf/\x00/x")
 	out = append(out, mkIn(0, "tx", "0", 1_000_000, hex.EncodeToString(bz), "tx/getErc20Address-nul"))
+	// NUL behind / inside a well-formed Oracle pair
+	for _, p := range []string{"unibi:uusd\x00", "un\x00ibi:uusd"} {
+		for _, m := range []string{"queryExchangeRate", "chainLinkLatestRoundData"} {
+			bz, _ = abiOf(2).Pack(m, p)
+			out = append(out, mkIn(2, "tx", "0", 1_000_000, hex.EncodeToString(bz), "tx/oracle-pair-nul"))
+		}
+	}
 	return out
 }
 
